@@ -177,6 +177,30 @@ def run(rep, tier):
                         ([("come out of split_unix/split_winmain (%s)" % T(retok[0])[:40])] if retok else []) + ([("were read back from a configuration entry")] if reread else [])))
         else:
             rep.ok("C16.R15", ih, "the entry function's argv is not re-tokenised text")
+    # positional arguments travel as '--pika:positional=<arg>': the reader takes everything behind the *first* '=' (the one the writer put there);
+    # cutting at a later '=' hands the application only the tail of 'key=value' / 'path=/a=b' arguments
+    subs = [(b, i, e) for b, i, e in ih.all_events() if e.get("k") == "call" and callee_short(e) == "substr" and e.get("args")]
+    for b, i, e in subs:
+        off = strip(e["args"][0])
+        vs = set(re.findall(r"[A-Za-z_]\w*", T(off)))
+        cut = None
+        for v in vs:
+            ini = local_init(ih, v) if 'local_init' in globals() else None
+            if ini is None:
+                for _, _, x in ih.all_events():
+                    if x.get("k") == "decl" and x.get("var") == v and x.get("init") is not None:
+                        ini = x["init"]
+            if ini is not None and re.search(r"\.(find\w*|rfind)\(", T(ini)):
+                cut = (v, strip(ini))
+        if cut is None:
+            continue
+        cs = callee_short(cut[1]) if isinstance(cut[1], dict) and cut[1].get("k") == "call" else ""
+        a0 = T(strip(cut[1]["args"][0])) if isinstance(cut[1], dict) and cut[1].get("args") else ""
+        if cs in ("find_first_of", "find") and a0 in ("61", "'='", '"="'):
+            rep.ok("C16.R15", ih, "a positional argument is everything behind the first '=' of its --pika:positional= token")
+        else:
+            rep.bad("C16.R15", ih, loc_of(e), "positional-value-cut", "init_helper cuts the value of a '--pika:positional=<arg>' token at %s(%s) instead of the first '=': a non-pika argument that "
+                    "itself contains '=' (N=100, path=/data/run=7/out) reaches the entry function truncated" % (cs, a0))
 
     # O: registered options
     O = set()
